@@ -44,6 +44,11 @@ def random_suite(tier, seed):
     for inp in far:
         inp["id"] = len(inputs)
         inputs.append(inp)
+    # periodic boxes with equal widths whose neighbouring images differ by shifts with two non-zero components of opposite sign
+    rng3 = C.Rng(seed * 4561 + 7)
+    for inp in T.gen_suite(rng3, 4 if tier == "quick" else 40, families=["diagshift"], nmax=4, dims=(3, 3, 2), periodics=(True,)):
+        inp["id"] = len(inputs)
+        inputs.append(inp)
     # a few partial constructions
     extra = []
     for inp in inputs[::4]:
